@@ -219,6 +219,37 @@ func ComputeBlockHash(d *engine.ExecutableData, beacon common.Hash, requests [][
 	for _, t := range d.Transactions {
 		w(t)
 	}
+	// like a real header hash, every field of the payload is covered: whatever the consensus layer
+	// drops or alters between the payload it stores and the one it shows the engine changes the hash
+	w(d.StateRoot[:])
+	w(d.ReceiptsRoot[:])
+	w(d.LogsBloom)
+	var m [32]byte
+	binary.LittleEndian.PutUint64(m[:8], d.GasLimit)
+	if d.BlobGasUsed != nil {
+		binary.LittleEndian.PutUint64(m[8:16], *d.BlobGasUsed)
+		m[24] |= 1
+	}
+	if d.ExcessBlobGas != nil {
+		binary.LittleEndian.PutUint64(m[16:24], *d.ExcessBlobGas)
+		m[24] |= 2
+	}
+	w(m[:])
+	if d.BaseFeePerGas != nil {
+		w(d.BaseFeePerGas.Bytes())
+	} else {
+		w([]byte("no base fee"))
+	}
+	for _, wd := range d.Withdrawals {
+		if wd != nil {
+			var x [24]byte
+			binary.LittleEndian.PutUint64(x[:8], wd.Index)
+			binary.LittleEndian.PutUint64(x[8:16], wd.Validator)
+			binary.LittleEndian.PutUint64(x[16:], wd.Amount)
+			w(x[:])
+			w(wd.Address[:])
+		}
+	}
 	w(beacon[:])
 	for _, r := range requests {
 		w(r)
@@ -363,15 +394,20 @@ func (api *engineAPI) GetPayloadV4(id engine.PayloadID) (*engine.ExecutionPayloa
 	d.Transactions = append(d.Transactions, el.UserTxs...)
 	d.ExtraData = make([]byte, params.GoatHeaderExtraLengthV0)
 	d.ExtraData[0] = byte(len(job.attrs.GoatTxs))
+	// every field distinctive and non-zero where the chain allows it, so that a field lost between the
+	// engine's answer, the stored payload and what the engine is shown later changes the block hash
 	var zero uint64
-	d.BlobGasUsed, d.ExcessBlobGas = &zero, &zero
+	excess := 131072 * (d.Number%2 + 1)
+	d.BlobGasUsed, d.ExcessBlobGas = &zero, &excess
+	d.GasUsed = 21000*uint64(len(d.Transactions)) + 1
+	d.LogsBloom[d.Number%256] = 0x80 | byte(d.Number)
 	reqs := el.requests(d.Number)
 	var beacon common.Hash
 	if job.attrs.BeaconRoot != nil {
 		beacon = *job.attrs.BeaconRoot
 	}
-	d.StateRoot = common.BytesToHash([]byte("state"))
-	d.ReceiptsRoot = common.BytesToHash([]byte("receipts"))
+	d.StateRoot = common.BytesToHash([]byte(fmt.Sprintf("state %d", d.Number)))
+	d.ReceiptsRoot = common.BytesToHash([]byte(fmt.Sprintf("receipts %d", d.Number)))
 	d.BlockHash = ComputeBlockHash(&d, beacon, reqs)
 	finish(d.BlockHash.Hex())
 	return &engine.ExecutionPayloadEnvelope{ExecutionPayload: &d, BlockValue: big.NewInt(0), Requests: reqs}, nil
